@@ -63,19 +63,26 @@ def clifford_ops(draw, n, max_len=60, allow_macros=True):
     while len(ops) < length:
         kind = draw(st.integers(0, 9))
         if allow_macros and kind == 9:
-            m = draw(st.sampled_from(["hh", "cxcx", "swapchain", "ssss", "ident", "swap3cx"]))
+            m = draw(st.sampled_from(["hh", "cxcx", "swapchain", "ssss", "ident", "swap3cx", "hsh", "cy", "paulirun"]))
             if m == "hh":
                 q = draw(st.integers(0, n - 1)); ops += [["h", [q]], ["h", [q]]]
             elif m == "ssss":
                 q = draw(st.integers(0, n - 1)); ops += [["s", [q]]] * 4
             elif m == "ident":
                 q = draw(st.integers(0, n - 1)); ops += [["id", [q]]]
+            elif m == "hsh":          # sqrt(X) or its inverse in the documented vocabulary (written as sx / sxdg when form_salt is set)
+                q = draw(st.integers(0, n - 1)); ops += [["h", [q]], [draw(st.sampled_from(["s", "sdg"])), [q]], ["h", [q]]]
+            elif m == "paulirun":     # a Pauli layer, e.g. from twirling (written as one `pauli` instruction when form_salt is set)
+                qs = draw(st.permutations(list(range(n))))[:draw(st.integers(min(2, n), n))]
+                ops += [[draw(st.sampled_from(["x", "y", "z"])), [q]] for q in qs]
             elif n >= 2:
                 a = draw(st.integers(0, n - 1)); b = draw(st.integers(0, n - 2)); b = b if b < a else b + 1
                 if m == "cxcx":
                     ops += [["cx", [a, b]], ["cx", [a, b]]]
                 elif m == "swap3cx":      # a SWAP written in the CX basis, as routing / transpilation produces it
                     ops += [["cx", [a, b]], ["cx", [b, a]], ["cx", [a, b]]]
+                elif m == "cy":           # controlled-Y in the documented vocabulary
+                    ops += [["sdg", [b]], ["cx", [a, b]], ["s", [b]]]
                 else:
                     ops += [["swap", [a, b]], ["swap", [b, a]]]
         elif n >= 2 and kind < p2:
